@@ -1,10 +1,93 @@
-import RgVerif.Model.Sx
+import RgVerif.Spec.ExitSpec
 namespace RgVerif.Driver.C15
-open RgVerif
+open RgVerif RgVerif.Exit RgVerif.ExitSpec
 
-/-- Request handler of property C15: `cmd` is the first token of the line, `args` the rest. -/
+/-
+Requests
+  c15.run   (cfg MODE par quiet stats messages implicit matchesPossible setupOk) PARSE (items ITEM…)
+  c15.spec  (cfg …) (items ITEM…)        -- the contract applied to the whole list `all`
+  c15.guard (cfg …) (items ITEM…)        -- pipeHit / pipeGuard of C15_pipe
+MODE = search | files; PARSE = ok | err | special
+ITEM = w (walker error) | s (skipped entry) | (f ID SR WR) | (pf ID SR WR) (file searched through --pre),
+       SR = m | n | e | p (raw result of the search), WR = o | p | e
+-/
+
+def parseSr : Sx → Option SearchRes
+  | .atom "m" => some (.ok true)
+  | .atom "n" => some (.ok false)
+  | .atom "e" => some .err
+  | .atom "p" => some .pipe
+  | _ => none
+
+def parseWr : Sx → Option WriteRes
+  | .atom "o" => some .ok
+  | .atom "p" => some .pipe
+  | .atom "e" => some .err
+  | _ => none
+
+/-- `(pf …)` = the file goes through `--pre` (the raw result is re-wrapped by `search_preprocessor`). -/
+def parseItem : Sx → Option (Bool × Item)
+  | .atom "w" => some (false, .walkErr)
+  | .atom "s" => some (false, .skip)
+  | .list [.atom "f", id, sr, wr] => do pure (false, .file (← id.nat?) (← parseSr sr) (← parseWr wr))
+  | .list [.atom "pf", id, sr, wr] => do pure (true, .file (← id.nat?) (← parseSr sr) (← parseWr wr))
+  | _ => none
+
+def parseCfg : Sx → Option Cfg
+  | .list [.atom "cfg", mode, par, quiet, stats, msgs, impl, mp, setup] => do
+    let mode ← match mode with
+      | .atom "search" => some Mode.search
+      | .atom "files" => some Mode.files
+      | _ => none
+    pure { mode := mode, parallel := (← par.bool?), quiet := (← quiet.bool?), stats := (← stats.bool?),
+           messages := (← msgs.bool?), implicitPath := (← impl.bool?), matchesPossible := (← mp.bool?),
+           setupOk := (← setup.bool?) }
+  | _ => none
+
+def parseParse : Sx → Option Parse
+  | .atom "ok" => some .ok
+  | .atom "err" => some .err
+  | .atom "special" => some .special
+  | _ => none
+
+def parseItems : Sx → Option (List (Bool × Item))
+  | .list (.atom "items" :: xs) => xs.mapM parseItem
+  | _ => none
+
+def showDiag : Diag → String
+  | .walk => "w"
+  | .file id => s!"f:{id}"
+  | .write id => s!"wr:{id}"
+  | .nothingSearched => "ns"
+  | .fatal => "fatal"
+
+def showList (xs : List String) : String :=
+  if xs.isEmpty then "-" else ",".intercalate xs
+
+def b (x : Bool) : String := if x then "1" else "0"
+
 def handle (cmd : String) (args : List Sx) : String :=
   match cmd, args with
+  | "c15.run", [cfg, p, items] =>
+    match parseCfg cfg, parseParse p, parseItems items with
+    | some c, some p, some raw =>
+      let r := main c p (raw.map seen)
+      s!"exit {r.exit} out {showList (r.out.map toString)} diags {showList (r.diags.map showDiag)}"
+    | _, _, _ => "bad-op"
+  | "c15.spec", [cfg, items] =>
+    match parseCfg cfg, parseItems items with
+    | some c, some raw =>
+      let all := raw.map (·.2)
+      let m := specMatched c all
+      let e := specErrored c all
+      s!"exit {specExit m e c.quiet} matched {b m} errored {b e} out {showList ((all.filterMap (okId c)).map toString)} diags {showList ((all.filterMap (diagOf c)).map showDiag)}"
+    | _, _ => "bad-op"
+  | "c15.guard", [cfg, items] =>
+    match parseCfg cfg, parseItems items with
+    | some c, some raw =>
+      let ran := raw.map (·.2)
+      s!"pipeHit {b (pipeHit c ran)} pipeGuard {b (pipeGuard c ran)} kindIntact {b (raw.map seen == ran)}"
+    | _, _ => "bad-op"
   | _, _ => "bad-op"
 
 end RgVerif.Driver.C15
